@@ -161,12 +161,13 @@ func (rt c15RT) RoundTrip(req *http.Request) (*http.Response, error) {
 			b, _ := json.Marshal(m)
 			return string(b)
 		}
-		answer := fault("asm-answer", 10)
-		if answer >= 1 && answer <= 6 {
+		answer := fault("asm-answer", 13)
+		if (answer >= 1 && answer <= 6) || answer >= 10 {
 			if s.rejectable == nil {
 				s.rejectable = map[string]string{}
 			}
-			s.rejectable[u.Host] = []string{"", "issuer-mismatch", "no-pkce", "token-http", "registration-data-scheme", "tos-javascript", "authz-javascript-loopback"}[answer]
+			s.rejectable[u.Host] = map[int]string{1: "issuer-mismatch", 2: "no-pkce", 3: "token-http", 4: "registration-data-scheme", 5: "tos-javascript", 6: "authz-javascript-loopback",
+				10: "issuer-other-port", 11: "issuer-with-query", 12: "issuer-with-userinfo"}[answer]
 		}
 		switch answer {
 		case 0:
@@ -185,6 +186,13 @@ func (rt c15RT) RoundTrip(req *http.Request) (*http.Response, error) {
 			return c15JSON(200, doc("authz-javascript-loopback", map[string]any{"authorization_endpoint": "javascript://127.0.0.1/%0Aalert(1)"})), nil
 		case 7:
 			return c15JSON(404, `{}`), nil
+		case 10:
+			// an issuer identifier is compared as a whole: another port, a query, user information name another issuer
+			return c15JSON(200, doc("issuer-other-port", map[string]any{"issuer": issuer + ":8443"})), nil
+		case 11:
+			return c15JSON(200, doc("issuer-with-query", map[string]any{"issuer": issuer + "?tenant=other"})), nil
+		case 12:
+			return c15JSON(200, doc("issuer-with-userinfo", map[string]any{"issuer": strings.Replace(issuer, "://", "://tenant@", 1)})), nil
 		case 9:
 			return redirect(302), nil
 		default:
@@ -256,7 +264,7 @@ func c15Run(ch *verifx.Chooser) (obs, bad, sig string, steps int) {
 	}
 	initial := c15Static{}
 	cfg.InitialTokenSource = initial
-	clientCfg := []string{"cimd", "prereg-matching-issuer", "prereg-other-issuer", "prereg-no-issuer", "dcr"}[ch.Free("client-config", 5)]
+	clientCfg := []string{"cimd", "prereg-matching-issuer", "prereg-other-issuer", "prereg-no-issuer", "dcr", "prereg-other-port"}[ch.Free("client-config", 6)]
 	switch clientCfg {
 	case "cimd":
 		cfg.ClientIDMetadataDocumentConfig = &ClientIDMetadataDocumentConfig{URL: "https://client.example/meta.json"}
@@ -264,6 +272,9 @@ func c15Run(ch *verifx.Chooser) (obs, bad, sig string, steps int) {
 		cfg.PreregisteredClient = &oauthex.ClientCredentials{ClientID: "prereg", Issuer: "https://as.example"}
 	case "prereg-other-issuer":
 		cfg.PreregisteredClient = &oauthex.ClientCredentials{ClientID: "prereg", Issuer: "https://idp.corp.example"}
+	case "prereg-other-port":
+		// the same host name on another port is another issuer
+		cfg.PreregisteredClient = &oauthex.ClientCredentials{ClientID: "prereg", Issuer: "https://as.example:8443"}
 	case "prereg-no-issuer":
 		cfg.PreregisteredClient = &oauthex.ClientCredentials{ClientID: "prereg"}
 	case "dcr":
@@ -363,7 +374,7 @@ func c15Run(ch *verifx.Chooser) (obs, bad, sig string, steps int) {
 		if !issOK && strings.Contains(last, "doc=ok") {
 			fail("code-exchanged-despite-iss-violation", "the code was exchanged although the RFC 9207 issuer check must fail (AS advertises iss parameter: %v, returned iss: %s)", s.issParam, s.issCase)
 		}
-		for _, bad := range []string{"doc=issuer-mismatch", "doc=no-pkce", "doc=token-http", "doc=registration-data-scheme", "doc=tos-javascript", "doc=authz-javascript-loopback"} {
+		for _, bad := range []string{"doc=issuer-mismatch", "doc=no-pkce", "doc=token-http", "doc=registration-data-scheme", "doc=tos-javascript", "doc=authz-javascript-loopback", "doc=issuer-other-port", "doc=issuer-with-query", "doc=issuer-with-userinfo"} {
 			if strings.Contains(last, bad) {
 				fail("rejected-metadata-used "+bad, "the code was sent to the token endpoint of metadata that must be rejected (%s)", last)
 			}
@@ -380,8 +391,8 @@ func c15Run(ch *verifx.Chooser) (obs, bad, sig string, steps int) {
 				fail("rejected-resource-metadata-used "+host, "the code was sent to %s, an authorization server named only by protected-resource metadata that must be rejected", host)
 			}
 		}
-		if clientCfg == "prereg-other-issuer" && strings.Contains(last, "client_id=prereg") {
-			fail("preregistered-credentials-used-with-other-issuer", "credentials registered with https://idp.corp.example were presented to %s", last)
+		if (clientCfg == "prereg-other-issuer" || (clientCfg == "prereg-other-port" && !strings.Contains(last, ":8443"))) && strings.Contains(last, "client_id=prereg") {
+			fail("preregistered-credentials-used-with-other-issuer", "credentials registered with another issuer (%s) were presented to %s", clientCfg, last)
 		}
 	}
 	for _, host := range s.asHostsAsked {
